@@ -143,6 +143,9 @@ func (l metaLeaf) filter() comet.Filter {
 		}
 		return nil
 	}
+	// the documented alias constructors (Between, AnyOf, NoneOf, IsNull, IsNotNull) are used for
+	// about half of the leaves; the choice is a function of the leaf, so replays are unchanged
+	alias := (len(l.Field)+len(l.Vals))%2 == 1
 	switch l.Op {
 	case "eq":
 		f = comet.Eq(l.Field, v(0))
@@ -157,7 +160,11 @@ func (l metaLeaf) filter() comet.Filter {
 	case "lte":
 		f = comet.Lte(l.Field, v(0))
 	case "range":
-		f = comet.Range(l.Field, v(0), v(1))
+		if alias {
+			f = comet.Between(l.Field, v(0), v(1))
+		} else {
+			f = comet.Range(l.Field, v(0), v(1))
+		}
 	case "in", "not_in":
 		op := comet.OpIn
 		if l.Op == "not_in" {
@@ -177,16 +184,29 @@ func (l metaLeaf) filter() comet.Filter {
 			for i, x := range l.Vals {
 				vs[i] = x.goVal()
 			}
-			if l.Op == "in" {
+			switch {
+			case l.Op == "in" && alias:
+				f = comet.AnyOf(l.Field, vs...)
+			case l.Op == "in":
 				f = comet.In(l.Field, vs...)
-			} else {
+			case alias:
+				f = comet.NoneOf(l.Field, vs...)
+			default:
 				f = comet.NotIn(l.Field, vs...)
 			}
 		}
 	case "exists":
-		f = comet.Exists(l.Field)
+		if alias {
+			f = comet.IsNotNull(l.Field)
+		} else {
+			f = comet.Exists(l.Field)
+		}
 	default:
-		f = comet.NotExists(l.Field)
+		if alias {
+			f = comet.IsNull(l.Field)
+		} else {
+			f = comet.NotExists(l.Field)
+		}
 	}
 	if l.Not {
 		f = comet.Not(f)
@@ -353,11 +373,31 @@ func execMeta(c *metaCase) []string {
 			var res []comet.MetadataResult
 			var err error
 			if cmd.Builder && len(gs) > 0 && len(fs) == 0 {
-				qb := comet.NewMetadataFilterQuery().Where(gs[0].Filters...)
-				for _, g := range gs[1:] {
-					qb = qb.Or(g.Filters...)
+				// Where / And / Or / Build / Execute of the query builder: the first filter of a group
+				// opens it, the others are appended with And
+				open := func(qb *comet.MetadataFilterQueryBuilder, first bool, fs []comet.Filter) *comet.MetadataFilterQueryBuilder {
+					if len(fs) == 0 {
+						return qb
+					}
+					if first {
+						qb = qb.Where(fs[0])
+					} else {
+						qb = qb.Or(fs[0])
+					}
+					if len(fs) > 1 {
+						qb = qb.And(fs[1:]...)
+					}
+					return qb
 				}
-				res, err = qb.Execute(idx)
+				qb := open(comet.NewMetadataFilterQuery(), true, gs[0].Filters)
+				for _, g := range gs[1:] {
+					qb = open(qb, false, g.Filters)
+				}
+				if len(gs)%2 == 0 {
+					res, err = idx.NewSearch().WithFilterGroups(qb.Build()...).Execute()
+				} else {
+					res, err = qb.Execute(idx)
+				}
 			} else {
 				s := idx.NewSearch()
 				if len(fs) > 0 {
